@@ -8,7 +8,12 @@ PROP = {
                'the family; success/failure, the fatal flag and the rendered result value are compared with an independent reference '
                'interpreter of the documented semantics. This quantifies over programs and inputs, which is what the property states.',
  'level_note': 'grammars beyond the node bound only through the static family; in the erased family every node passes through make_base + convert and children results are strings (unit elision / tuple flattening / variant de-duplication are covered by the static family); lexeme can only wrap statically typed parsers; error texts are not compared here (C12)',
- 'binaries': [{'name': 'C02', 'sources': ['harness/C02.cpp', 'harness/C02_w.cpp', 'harness/C02_static.cpp'], 'libs': ['core'], 'flavour': 'asan'}],
+ 'binaries': [{'name': 'C02', 'sources': ['harness/C02.cpp', 'harness/C02_w.cpp'], 'libs': ['core'], 'flavour': 'asan'},
+              {'name': 'C02s', 'sources': ['harness/C02s.cpp', 'harness/C02_static.cpp'], 'libs': ['core'], 'flavour': 'asan'}],
+ 'compile_probes': [{'name': 'not_(type_erased_parser)', 'source': 'harness/C02_probe_erased.cpp', 'flags': ['-DC02_PROBE_KIND=1']},
+                    {'name': 'repetition/plus/optional(type_erased_parser)', 'source': 'harness/C02_probe_erased.cpp', 'flags': ['-DC02_PROBE_KIND=2']},
+                    {'name': 'sequence/alternative(type_erased_parser)', 'source': 'harness/C02_probe_erased.cpp', 'flags': ['-DC02_PROBE_KIND=3']},
+                    {'name': 'fatal/ignore(type_erased_parser)', 'source': 'harness/C02_probe_erased.cpp', 'flags': ['-DC02_PROBE_KIND=4']}],
  'deadline': {'quick': 300, 'thorough': 1500},
  'rule': 'one case per (grammar AST, skipper, input string); grammars: all well-formed ASTs (no repetition/separator/list of a nullable parser) with <= N nodes over 12 leaves, 10 unary and 2 binary combinators; inputs: all strings over {a,b,space} (plus {1,-} when a numeric leaf occurs) up to the length bound; a case is non-trivial when the reference outcome is success or a fatal failure',
  'assumptions': ['negative lookahead absorbs fatal errors of its operand (DESIGN.md section 5)',
